@@ -352,6 +352,13 @@ def run_on(fb, chk, tag=""):
                     any(x[0] == "bin" and x[1] == "BitOr" for x in subterms(rv))
                 good = masked and not selfref
                 detail = show(rv)[:100]
+            if good and role in ("offered_virtio", "offered_proto"):
+                # the record of the offer is the last reply, not the union of all replies seen
+                m = must_of(fb, f)
+                rv = m.sym.rvalue(w["rv"])
+                if any(x[0] == "field" and x[2] == w["field"] for x in subterms(rv)) or any(x[0] == "bin" and x[1] == "BitOr" for x in subterms(rv)):
+                    good = False
+                    detail = "accumulates: " + show(rv)[:80]
             if good and role == "acked_proto":
                 # the frontend's record is exactly the set it put on the wire (the request body is features.bits()):
                 # a masked or otherwise altered record makes frontend and backend disagree on REPLY_ACK
